@@ -469,11 +469,12 @@ Open Scope Z_scope.
 """
 
 
-def translate_kernel(src_path: str, kernel: Kernel, module: ast.Module | None = None) -> str:
+def translate_kernel(src_path: str, kernel: Kernel, module: ast.Module | None = None, translator=None) -> str:
+    """translator: optional subclass of FnTranslator (plugins extend the subset that way)."""
     if module is None:
         module = ast.parse(open(src_path).read())
     fn = find_function(module, kernel.func)
-    tr = FnTranslator(kernel, module)
+    tr = (translator or FnTranslator)(kernel, module)
     for a in fn.args.args:
         # python parameters that are *not* abstracted become Gallina parameters v_<name>
         pass
